@@ -387,7 +387,7 @@ impl Forest {
         self.kill_subtree(o);
         // n takes o's place
         let same_place = match prev_o {
-            Some(pv) => self.prev(n) == Some(pv),
+            Some(pv) => pv == n || self.prev(n) == Some(pv),
             None => self.nodes[n].parent == Some(p) && self.ordinary(p).first() == Some(&n),
         };
         if !same_place {
